@@ -184,6 +184,11 @@ def gen_variant(r, trig):
         nm = grammar.gen_header_name(r, used)
         used.add(nm.lower())
         others.append(nm + ': ' + grammar.gen_value(r))
+    if trig in ('te_cl', 'chunked_http10') and method != 'CONNECT' and r.chance(0.3):
+        # the client announces Expect: 100-continue and the server answers early (a final 4xx, or anything else) while the chunked
+        # body is on its way: the ambiguity indicator and the chunked framing are facts about the request, whatever the answer is
+        others.append(casing(r, 'Expect') + ': 100-continue')
+        exp['early'] = r.pick(['417 Expectation Failed', '403 Forbidden', '400 Bad Request', '413 Payload Too Large', '200 OK'])
     lines = headers + ([host_line] if host_line else [])
     if trig not in ('multi_cl_same', 'multi_cl_diff'):
         r.shuffle(lines)
@@ -222,6 +227,14 @@ def shard(args):
             cases.append((key, cfg, ops))
             meta[key] = (exp, cname, cfg, ops, req)
             key += 1
+        if exp.get('early'):
+            he = req.index(b'\r\n\r\n') + 4
+            eres = ('HTTP/1.1 %s\r\nContent-Length: 0\r\n\r\n' % exp['early']).encode()
+            for p in range(he + 1, len(req)):
+                ops = [(REQ, req[:p]), (RES, eres), (REQ, req[p:]), (CLOSE, None)]
+                cases.append((key, cfg, ops))
+                meta[key] = (exp, 'early', cfg, ops, req)
+                key += 1
     path = os.path.join(wd, 'b%d.hxb' % s)
     hxb.write_batch(path, cases)
     res = fw.run_hx([bdir + '/hx', 'run', path, '--crash-dir', wd], timeout=7200)
@@ -239,6 +252,8 @@ def shard(args):
         out['distinct'].add(hashlib.sha1(repr(ops).encode('latin-1', 'replace')).digest()[:8])
         out['variants'].add(hashlib.sha1(req).digest()[:8])
         out['trig'][exp['trigger']] = out['trig'].get(exp['trigger'], 0) + 1
+        if cname == 'early':
+            out['trig']['early_answer'] = out['trig'].get('early_answer', 0) + 1
         if exp.get('folded'):
             out['trig']['folded_' + exp['folded']] = out['trig'].get('folded_' + exp['folded'], 0) + 1
         txs = d.get('tx', [])
